@@ -35,13 +35,21 @@ static void recv_set_error(int tok) { VX_ASSERT(g_set_value + g_set_error + g_se
  * counter before our step, but never below the contributions still outstanding (ours included): value >= 1. */
 static tasks_remaining_t atomic_dec_fetch(tasks_remaining_t *p)
 {
-  tasks_remaining_t v = *p;
-  if (nondet_bool()) { v = (tasks_remaining_t) nondet_u64(); VX_ASSUME(v >= 1 && v <= *p); *p = v; }
+  /* environment step, taken before our own atomic step: other workers finish.  Each of them may have thrown:
+   * its store_exception (flag set, exception stored) precedes its finish() in program order, so whenever the
+   * counter is seen lowered the flag may have been raised and the exception slot filled.  The flag is monotone. */
+  if (nondet_bool())
+  {
+    tasks_remaining_t v = (tasks_remaining_t) nondet_u64();
+    VX_ASSUME(v >= 1 && v <= *p);
+    *p = v;
+    if (nondet_bool() && !vx_op->exception_thrown) { vx_op->exception_thrown = true; vx_op->exception_has = true; vx_op->exception_tok = nondet_int(); }
+  }
   VX_ASSERT(!g_lin, "one decrement per finish()");
   g_lin = true; g_lin_old = *p; *p = *p - 1; g_lin_new = *p;
-  /* whoever brings the counter to 0 runs after every other worker's store_exception (program order in the task
-   * entry function: store_exception precedes finish): the flag and the stored exception are then stable */
-  if (g_lin_new != 0) { vx_op->exception_thrown = nondet_bool(); }
+  /* whoever brings the counter to 0 runs after every other worker's store_exception and finish: from then on the
+   * flag and the stored exception are stable.  Otherwise other workers are still running and may still throw. */
+  if (g_lin_new != 0 && nondet_bool()) { vx_op->exception_thrown = true; }
   return g_lin_new;
 }
 static bool atomic_exchange_bool(bool *p, bool v)
@@ -61,7 +69,7 @@ __CPROVER_ensures(g_set_value + g_set_error == (g_lin_new == 0 ? 1 : 0) && g_set
 /* an error (the stored exception) iff one was latched, the values otherwise */
 __CPROVER_ensures(g_lin_new == 0 ==> (g_set_error == (vx_op->exception_thrown ? 1 : 0)))
 __CPROVER_ensures(g_set_error == 1 ==> g_error_tok == vx_op->exception_tok)
-__CPROVER_assigns(vx_op->tasks_remaining, vx_op->exception_thrown, g_lin, g_lin_old, g_lin_new, g_set_value, g_set_error, g_error_tok)
+__CPROVER_assigns(vx_op->tasks_remaining, vx_op->exception_thrown, vx_op->exception_has, vx_op->exception_tok, g_lin, g_lin_old, g_lin_new, g_set_value, g_set_error, g_error_tok)
 //@LIFT body
 #endif
 
